@@ -144,6 +144,7 @@ type Prog struct {
 	Pkg    string
 	Import string // "dot" | "co" | "renamed"
 	SeqImported bool // the user file already imports seq (under its default name)
+	LoadTest    bool // compile with test packages loaded; the package then has an in-package test file that uses the API
 	Files  []*File
 }
 
